@@ -556,9 +556,10 @@ func (pck *pebbleEngCheckpoint) Save(path string, notify chan struct{}) error {
 		return errDBEngClosed
 	}
 	if notify != nil {
-		time.AfterFunc(time.Millisecond*20, func() {
-			close(notify)
-		})
+		// pebble copies the current WAL files in full while it builds the checkpoint,
+		// so the writes after the checkpoint index must wait until it is done,
+		// otherwise they would be part of the checkpoint.
+		defer close(notify)
 	}
 	return pck.pe.eng.Checkpoint(path)
 }
